@@ -267,6 +267,48 @@ func mutate(tp *tape.Tape, b []byte) []byte {
 	return out
 }
 
+// tokenSoup builds lines out of short random sequences over the parser's special tokens, in
+// key and in value position and inside maps, arrays and edge groups: the parser's
+// lookahead/rewind logic is driven by which token follows which, and the corpus only has
+// the adjacencies people write.
+func tokenSoup(tp *tape.Tape) string {
+	// Swarm: each run uses plain text plus a random handful of token classes, so that any
+	// particular adjacency of two or three special tokens is frequent in some runs.
+	classes := [][]string{{"*", "**"}, {"${v}", "${v}", "${"}, {"\\n", "\\", "\\\n"}, {" ", "\t"}, {"-", "--", "->", "<-", "<->"}, {"."}, {"&", "!&"}, {"(", ")"},
+		{"@", "...@x"}, {"'", "\""}, {":", ";"}, {"|", "`"}, {"[", "]"}, {"{", "}"}, {"#"}, {"é", "\U0001F600", "\u00a0"}, {"null", "_", "0"}}
+	toks := []string{"a", "bc", "def"}
+	seed := uint64(tp.Draw(1<<30, "soup.seed"))
+	next := func(n int) int { return int(tape.SplitMix(&seed) % uint64(n)) }
+	for i, n := 0, 2+next(4); i < n; i++ {
+		toks = append(toks, classes[next(len(classes))]...)
+	}
+	seq := func() string {
+		var sb strings.Builder
+		for i, n := 0, 2+next(8); i < n; i++ {
+			sb.WriteString(toks[next(len(toks))])
+		}
+		return sb.String()
+	}
+	var sb strings.Builder
+	for l, lines := 0, 8+next(40); l < lines; l++ {
+		switch next(7) {
+		case 0, 1:
+			sb.WriteString("k" + fmt.Sprint(l) + ": " + seq() + "\n")
+		case 2:
+			sb.WriteString(seq() + ": v\n")
+		case 3:
+			sb.WriteString(seq() + "\n")
+		case 4:
+			sb.WriteString("m: {\n  " + seq() + ": " + seq() + "\n}\n")
+		case 5:
+			sb.WriteString("arr: [" + seq() + "; " + seq() + "]\n")
+		case 6:
+			sb.WriteString("(" + seq() + " -> " + seq() + ")[0]: " + seq() + "\n")
+		}
+	}
+	return sb.String()
+}
+
 // ---------------------------------------------------------------- the run
 
 type sample struct {
@@ -290,8 +332,8 @@ func Run(cfg harness.Config, idx int, tp *tape.Tape) harness.Result {
 		e = c[tp.Draw(len(c), "input.pick")]
 	}
 
-	mode := tp.Weighted([]int{3, 3, 2, 2}, "mode") // 0 chunked full, 1 EOF sweep, 2 error sweep, 3 import through fs.FS
-	enc := tp.Weighted([]int{5, 3, 2}, "encoding") // 0 utf8, 1 utf16le+bom, 2 mutated bytes
+	mode := tp.Weighted([]int{3, 3, 2, 2}, "mode")    // 0 chunked full, 1 EOF sweep, 2 error sweep, 3 import through fs.FS
+	enc := tp.Weighted([]int{5, 3, 2, 2}, "encoding") // 0 utf8, 1 utf16le+bom, 2 mutated bytes, 3 token soup
 	utf16pos := tp.Chance(1, 4, "utf16pos")
 	var data []byte
 	encName := "utf8"
@@ -307,6 +349,13 @@ func Run(cfg harness.Config, idx int, tp *tape.Tape) harness.Result {
 		if tp.Chance(1, 3, "mut.utf16") {
 			data = mutate(tp, toUTF16LE(e.Text))
 			encName = "mutated-utf16"
+		}
+	case 3:
+		data = []byte(tokenSoup(tp))
+		encName = "token-soup"
+		if tp.Chance(1, 4, "soup.utf16") {
+			data = toUTF16LE(string(data))
+			encName = "token-soup-utf16"
 		}
 	}
 	pat := drawPattern(tp)
@@ -558,6 +607,7 @@ func runImport(res *harness.Result, tp *tape.Tape, e corpus.Entry, data []byte, 
 		// A crash of the compiler proper on one-shot input is outside this slice (C07);
 		// it is still a crash reached through Parse's stream path only if chunking matters.
 		res.Probe("import.oneshot_compile_panic")
+		res.Tracef("one-shot compile of an import of %s panicked: %s\nmain=%q\nimp.d2=%q", e.Name, clip(ref.Panic), main, clip(string(data)))
 		return
 	}
 	fault := tp.Weighted([]int{4, 2, 2}, "import.fault") // 0 chunked, 1 read error mid-file, 2 open error
